@@ -469,6 +469,23 @@ def eval_pass_first_round_is_some(F):
                                     cmp_ok = True
                             if recv_ok and dflt and dflt.get("int") == 1 and cmp_ok:
                                 continue
+                        if fo.kind == "local" and fo.rv is not None and fo.rv.get("k") == "unop" and fo.rv.get("op") == "Not":
+                            # `let settled = previous.is_some_and(|p| *p == eval); (!settled).then_some(eval)`: the flag is false
+                            # exactly when a previous evaluation was supplied and compared equal
+                            inner = mir.provenance(f, du, fo.rv["a"])
+                            okk = bool(inner)
+                            for io in inner:
+                                if not (io.kind == "call" and io.callee == "std::option::Option::<T>::is_some_and" and io.term["args"]):
+                                    okk = False
+                                    continue
+                                rp = mir.op_place(io.term["args"][0])
+                                recv_ok = rp is not None and f["locals"][rp["l"]] == OPT_REF_CT
+                                cmp_ok = any((t2.get("callee") or "") == "std::cmp::PartialEq::eq" and "CompiledTx" in ((t2.get("resolved") or "") + " ".join(t2.get("gargs") or []))
+                                             for fr in io.term.get("fnrefs") or () if fr in F.fns for _, t2 in mir.calls(F.fns[fr]))
+                                if not (recv_ok and cmp_ok):
+                                    okk = False
+                            if okk:
+                                continue
                         if fo.kind == "call" and fo.callee in ("std::cmp::PartialEq::ne",) and "CompiledTx" in ((fo.term.get("resolved") or "") + " ".join(fo.term.get("gargs") or [])):
                             if any(some_t is not None and cfg.dominates(some_t, fo.bb) and (none_t is None or fo.bb not in cfg.reach_from(none_t)) for (_, none_t, some_t) in sw):
                                 continue
@@ -746,6 +763,15 @@ def _exit_condition(f, du, u):
                         for side in (rv["a"], rv["b"]):
                             if any(".fee" in o.proj for o in mir.provenance(f, du, side, transparent_extra=AWAIT)):
                                 return "on a `%s` comparison of fees" % rv["op"]
+                        # the counter takes part as it is: `rounds.max(3) > limit` reaches the bound before a single round was
+                        # confirmed whenever the limit is small
+                        carried = {l_ for l_, ds_ in du.defs.items() if len(ds_) > 1}
+                        for side in (rv["a"], rv["b"]):
+                            for o in mir.provenance(f, du, side):
+                                if o.kind == "call" and (o.callee or "").split("::")[-1] in ("max", "min", "clamp") and o.term["args"]:
+                                    for a_ in o.term["args"]:
+                                        if any(x.kind == "local" and x.local in carried for x in mir.provenance(f, _Strict(du), a_)):
+                                            return "on a `%s` comparison of a clamped round counter (`%s`) with the bound" % (rv["op"], o.callee.split("::")[-1])
                         return "on a `%s` comparison of a round counter with the bound" % rv["op"]
                     if rv["k"] == "discr":
                         src = mir.provenance(f, du, {"l": rv["pl"]["l"], "p": []})
